@@ -714,6 +714,45 @@ func TestC27(t *testing.T) {
 			ev = serf.MemberEvent{Type: ty, Members: members}
 		}
 
+		// ---- a third of the cases: the same handler object has already served an earlier event while the
+		// node carried other tags (tags change at run time through the tags RPC, without a reload). What the
+		// scripts see for the event under test must be the node as it is now (seeded C27-j: the
+		// event-independent part of the environment kept from the first invocation).
+		if rng.Intn(3) == 0 {
+			cur := self
+			self = c27Member(rng)
+			self.Name = cur.Name
+			var warm serf.Event = serf.UserEvent{LTime: 1, Name: evName, Payload: []byte("earlier")}
+			if me, ok := ev.(serf.MemberEvent); ok {
+				warm = serf.MemberEvent{Type: me.Type}
+			}
+			wdone := make(chan struct{})
+			go func() {
+				defer close(wdone)
+				handler.HandleEvent(warm)
+			}()
+			select {
+			case <-wdone:
+			case <-time.After(watchdog):
+				r.Inconclusive(fmt.Sprintf("case %d: HandleEvent (earlier event) did not return within the watchdog", ci))
+				return
+			}
+			self = cur
+			earlier := 0
+			for _, h := range hs {
+				for n := 0; ; n++ {
+					if os.Remove(filepath.Join(h.Dir, fmt.Sprintf("%d.env", n))) != nil {
+						break
+					}
+					_ = os.Remove(filepath.Join(h.Dir, fmt.Sprintf("%d.in", n)))
+					_ = os.Remove(filepath.Join(h.Dir, fmt.Sprintf("%d.end", n)))
+					earlier++
+				}
+			}
+			r.Count("cases_with_an_earlier_event_under_other_tags", 1)
+			r.Count("script_runs_for_the_earlier_event", earlier)
+		}
+
 		// ---- run (synchronous); watchdog => inconclusive only
 		done := make(chan struct{})
 		go func() {
